@@ -237,10 +237,16 @@ QString maskRandom(const QString &s, QMap<QString, QString> &table)
     return out;
 }
 
+static int s_workerId = 0;
+int workerId() { return s_workerId; }
+
 int workerMain(int argc, char **argv, const Harness &h)
 {
-    Q_UNUSED(argc)
-    Q_UNUSED(argv)
+    for (int i = 1; i + 1 < argc; ++i) {
+        if (QByteArray(argv[i]) == "--worker") {
+            s_workerId = QByteArray(argv[i + 1]).toInt();
+        }
+    }
     std::string line;
     while (std::getline(std::cin, line)) {
         if (line.empty()) {
